@@ -473,9 +473,9 @@ pub fn run(ctx: &mut Ctx) -> Result<(), Violation> {
     ctx.assume("the table of a result is read by the harness walker; the expected diagram is built from that table with plain enum values (no BDDEnv)");
     ctx.assume("hash inequality of different functions is not asserted (collisions are counted only)");
 
-    let maxk = ctx.tier.pick(3, 4);
+    let maxk = 4;
     for k in 0..=maxk {
-        let maps = id_maps(k);
+        let maps: Vec<Vec<usize>> = if k == 4 && ctx.tier == Tier::Quick { id_maps(k).into_iter().take(1).collect() } else { id_maps(k) };
         let nf: u64 = 1u64 << (1u64 << k);
         let n = nf * maps.len() as u64;
         let r = par_exhaustive(ctx, n, |i, st| {
@@ -496,7 +496,7 @@ pub fn run(ctx: &mut Ctx) -> Result<(), Violation> {
         ctx.stage(&format!("routes-all-functions-k{}", k), true, r)?;
     }
 
-    let cases = ctx.tier.pick(6_000, 200_000);
+    let cases = ctx.tier.pick(40_000, 600_000);
     let max_ops = ctx.tier.pick(40, 80);
     let r = par_random(ctx, "histories", cases, 400, |tape, st| {
         let mut t = Tape::new(tape);
@@ -506,7 +506,7 @@ pub fn run(ctx: &mut Ctx) -> Result<(), Violation> {
     });
     ctx.stage("random-histories-two-envs", false, r)?;
 
-    let cases = ctx.tier.pick(6_000, 200_000);
+    let cases = ctx.tier.pick(40_000, 600_000);
     let r = par_random(ctx, "cross-env-histories", cases, 400, |tape, st| {
         let mut t = Tape::new(tape);
         let opsv = ops::gen_ops(&mut t, max_ops);
